@@ -266,8 +266,9 @@ def d4_typing(facts, rep):
                rets == [want], 'returns %s' % rets, key_extra=ptypes[-40:])
     for fn in facts.get(CHM + 'lookup'):
         ta = [c for c in calls_named(fn, ('try_acquire',)) if c[2].get('a') and last_member(fn, c[2]['a'][0]) == 'mutex']
+        mode = set(p['v'] for p in fn.d.get('params', []) if p['ty'] == 'bool')       # the `write` parameter of lookup()
         ok = bool(ta) and all(len(c[2]['a']) >= 2 and fn.n(fn.strip(c[2]['a'][1])).get('k') == 'var' and
-                              fn.n(fn.strip(c[2]['a'][1])).get('n') == 'write' for c in ta)
+                              fn.n(fn.strip(c[2]['a'][1])).get('v') in mode for c in ta)
         rep.ob('D4', 'K10', fn, 'the element lock is acquired with the requested mode', ok, 'try_acquire(n->mutex, ...) ignores `write`')
     rep.floor('D4', 12, 'accessor typing')
 
@@ -278,9 +279,11 @@ def d5_success(facts, rep):
         if not ins:
             continue
         ip = set(c[0] for c in ins)
+        from engine.rules import returned_vars
+        rv = returned_vars(fn)       # the result flag is the variable that lookup() returns
         for pos, s, l, r in assignments(fn):
             ln_ = fn.n(fn.strip(l))
-            if ln_.get('k') == 'var' and ln_.get('n') == 'return_value' and fn.cv(r) == 1:
+            if ln_.get('k') == 'var' and ln_.get('v') in rv and fn.cv(r) == 1:
                 ok, wit = every_path_passes(fn, 'entry', lambda p, e: p in ip, end=pos)
                 rep.ob('D5', 'K4', fn, 'insert reports success only on the path that linked the new node', ok,
                        'two concurrent inserts of one key can both return true: ' + wit, ln=fn.n(s).get('ln'))
